@@ -1,1 +1,344 @@
-(* placeholder: to be written *)
+(** C08: the energy entry of every user account equals the time-weighted sum of the locked tokens it
+    holds, in every reachable state of the composed model (energy factory + token-unstake +
+    lkmex-transfer + wrapper).  The algebra is linear; the content is that every endpoint updates the
+    right account by the right amounts, and that every call site of [add_after_token_lock] (which
+    silently drops a term when unlock <= now) has unlock >= now. *)
+From MX Require Import Base.Prelude Gen.Params Model.Energy.
+
+(** Break a hypothesis [H : <monadic computation> = Ok _] into its successful steps. *)
+Ltac inv_ok H :=
+  repeat (first
+    [ match type of H with
+      | Ok _ = Ok _ => inversion H; subst; clear H
+      | Err _ = Ok _ => discriminate H
+      | bind ?r ?f = Ok _ =>
+          let a := fresh "a" in let Hb := fresh "Hb" in
+          apply bind_ok in H; destruct H as (a & Hb & H)
+      | (if ?b then _ else _) = Ok _ =>
+          let E := fresh "E" in destruct b eqn:E
+      | (let (_, _) := ?x in _) = Ok _ => destruct x
+      | (match ?x with Some _ => _ | None => _ end) = Ok _ =>
+          let E := fresh "E" in destruct x eqn:E
+      end
+    | progress cbv beta in H ]).
+
+Ltac zb := repeat match goal with
+  | H : (_ =? _) = true |- _ => apply Z.eqb_eq in H
+  | H : (_ =? _) = false |- _ => apply Z.eqb_neq in H
+  | H : (_ <? _) = true |- _ => apply Z.ltb_lt in H
+  | H : (_ <? _) = false |- _ => apply Z.ltb_ge in H
+  | H : (_ <=? _) = true |- _ => apply Z.leb_le in H
+  | H : (_ <=? _) = false |- _ => apply Z.leb_gt in H
+  | H : negb _ = true |- _ => apply negb_true_iff in H
+  | H : negb _ = false |- _ => apply negb_false_iff in H
+  | H : (_ && _) = true |- _ => apply andb_true_iff in H; destruct H
+  end.
+
+(** ------------------------------------------------------------------ the only facts about the constants *)
+Lemma month_pos : 0 < EPOCHS_PER_MONTH.
+Proof. vm_compute. reflexivity. Qed.
+Lemma month_le_year : EPOCHS_PER_MONTH <= EPOCHS_PER_YEAR.
+Proof. vm_compute. discriminate. Qed.
+
+(** ------------------------------------------------------------------ energy algebra *)
+(** [stored_ok en W T now]: a stored entry, last updated at [e_upd en] <= now, of an account whose
+    tokens have sum(amount*unlock) = W and sum(amount) = T.
+    [fresh en W T now]: the same entry brought to the current epoch. *)
+Definition stored_ok (en : energy) (W T now : Z) : Prop :=
+  e_amt en = W - e_upd en * T /\ e_tot en = T /\ e_upd en <= now /\ 0 <= T.
+
+Definition fresh (en : energy) (W T now : Z) : Prop :=
+  e_upd en = now /\ e_amt en = W - now * T /\ e_tot en = T /\ 0 <= T.
+
+Lemma fresh_stored en W T now : fresh en W T now -> stored_ok en W T now.
+Proof. unfold fresh, stored_ok. intros (U & A & To & P). rewrite U. repeat split; auto; lia. Qed.
+
+Lemma fresh_ext en W T W' T' now : fresh en W T now -> W = W' -> T = T' -> fresh en W' T' now.
+Proof. intros H -> ->. exact H. Qed.
+
+Lemma deplete_fresh en W T now : stored_ok en W T now -> fresh (deplete en now) W T now.
+Proof.
+  unfold stored_ok, fresh, deplete. intros (A & To & U & P).
+  destruct (e_upd en =? now) eqn:E; zb.
+  - rewrite <- E. repeat split; auto.
+  - destruct (0 <? e_tot en) eqn:Et; zb; simpl.
+    + unfold en_subtract. destruct (now <=? e_upd en) eqn:E2; zb; [lia|]. simpl.
+      repeat split; auto. rewrite A, To. ring.
+    + assert (HT : T = 0) by lia. rewrite HT in *. repeat split; auto; lia.
+Qed.
+
+Lemma add_lock_fresh en W T now a e :
+  fresh en W T now -> now <= e -> 0 <= a ->
+  fresh (add_after_token_lock en a e now) (W + a * e) (T + a) now.
+Proof.
+  unfold fresh, add_after_token_lock, en_add. intros (U & A & To & P) He Ha.
+  destruct (e <=? now) eqn:E; zb; simpl.
+  - assert (e = now) by lia. subst e. repeat split; auto; try lia; rewrite A; ring.
+  - repeat split; auto; try lia; rewrite A; ring.
+Qed.
+
+Lemma refund_fresh en W T now a e en' :
+  fresh en W T now -> e <= now -> refund_after_token_unlock en a e now = Ok en' ->
+  fresh en' (W - a * e) (T - a) now.
+Proof.
+  unfold fresh, refund_after_token_unlock, en_add. intros (U & A & To & P) He H.
+  apply bind_ok in H. destruct H as (t & Hb & H). apply sub_chk_ok in Hb. destruct Hb as [Hle Ht].
+  inversion H; subst en'; clear H. rewrite Ht. clear Ht.
+  destruct (now <=? e) eqn:E; zb; simpl in *.
+  - assert (e = now) by lia. subst e. repeat split; auto; try lia; nia.
+  - repeat split; auto; try lia; nia.
+Qed.
+
+Lemma early_fresh en W T now a e en' :
+  fresh en W T now -> now <= e -> deplete_after_early_unlock en a e now = Ok en' ->
+  fresh en' (W - a * e) (T - a) now.
+Proof.
+  unfold fresh, deplete_after_early_unlock, en_subtract. intros (U & A & To & P) He H.
+  apply bind_ok in H. destruct H as (t & Hb & H). apply sub_chk_ok in Hb. destruct Hb as [Hle Ht].
+  inversion H; subst en'; clear H. rewrite Ht. clear Ht.
+  destruct (e <=? now) eqn:E; zb; simpl in *.
+  - assert (e = now) by lia. subst e. repeat split; auto; try lia; nia.
+  - repeat split; auto; try lia; nia.
+Qed.
+
+Lemma any_fresh en W T now a e en' :
+  fresh en W T now -> update_after_unlock_any en a e now = Ok en' ->
+  fresh en' (W - a * e) (T - a) now.
+Proof.
+  unfold update_after_unlock_any. intros F H. destruct (e <? now) eqn:E; zb.
+  - eapply refund_fresh; eauto. lia.
+  - eapply early_fresh; eauto.
+Qed.
+
+Lemma change_fresh en W T now a e1 e2 en' :
+  fresh en W T now -> now <= e2 -> 0 <= a ->
+  update_after_unlock_epoch_change en a e1 e2 now = Ok en' ->
+  fresh en' (W - a * e1 + a * e2) T now.
+Proof.
+  unfold update_after_unlock_epoch_change. intros F He Ha H. inv_ok H.
+  eapply fresh_ext; [apply add_lock_fresh; [eapply any_fresh; eauto | assumption | assumption] | |]; lia.
+Qed.
+
+(** the "else" branches of cancelUnbond and add_energy_to_destination: tokens that are already
+    unlockable carry a negative term *)
+Lemma raw_add_first_fresh en W T now a e en' :
+  fresh en W T now -> remove_energy_raw (add_energy_raw en a 0) 0 (a * (now - e)) = Ok en' ->
+  fresh en' (W + a * e) (T + a) now.
+Proof.
+  unfold fresh, remove_energy_raw, add_energy_raw. intros (U & A & To & P) H. simpl in H.
+  apply bind_ok in H. destruct H as (t & Hb & H). apply sub_chk_ok in Hb. destruct Hb as [Hle Ht].
+  inversion H; subst en'; clear H. rewrite Ht. clear Ht. simpl.
+  repeat split; auto; try lia; nia.
+Qed.
+
+Lemma raw_remove_first_fresh en W T now a e en1 :
+  fresh en W T now -> 0 <= a -> remove_energy_raw en 0 (a * (now - e)) = Ok en1 ->
+  fresh (add_energy_raw en1 a 0) (W + a * e) (T + a) now.
+Proof.
+  unfold fresh, remove_energy_raw, add_energy_raw. intros (U & A & To & P) Ha H.
+  apply bind_ok in H. destruct H as (t & Hb & H). apply sub_chk_ok in Hb. destruct Hb as [Hle Ht].
+  inversion H; subst en1; clear H. rewrite Ht. clear Ht. simpl.
+  repeat split; auto; try lia; nia.
+Qed.
+
+(** ------------------------------------------------------------------ payment lists *)
+Fixpoint wsum (ps : list (Z * Z)) : Z := match ps with [] => 0 | (e, a) :: t => a * e + wsum t end.
+Fixpoint tsum (ps : list (Z * Z)) : Z := match ps with [] => 0 | (_, a) :: t => a + tsum t end.
+
+Definition all_pos (ps : list (Z * Z)) : bool := forallb (fun p => 0 <? snd p) ps.
+
+Lemma unlock_loop_fresh ps : forall en W T now en',
+  fresh en W T now -> unlock_loop en now ps = Ok en' ->
+  fresh en' (W - wsum ps) (T - tsum ps) now.
+Proof.
+  induction ps as [|[e a] t IH]; simpl; intros en W T now en' F H.
+  - inv_ok H. eapply fresh_ext; eauto; lia.
+  - inv_ok H. zb. eapply fresh_ext; [eapply IH; [eapply refund_fresh; eauto | eassumption] | |]; lia.
+Qed.
+
+Lemma deduct_loop_fresh ps : forall en W T now en',
+  fresh en W T now -> deduct_loop en now ps = Ok en' ->
+  fresh en' (W - wsum ps) (T - tsum ps) now.
+Proof.
+  induction ps as [|[e a] t IH]; simpl; intros en W T now en' F H.
+  - inv_ok H. eapply fresh_ext; eauto; lia.
+  - inv_ok H. zb. eapply fresh_ext; [eapply IH; [eapply early_fresh; eauto; lia | eassumption] | |]; lia.
+Qed.
+
+Lemma add_dest_loop_fresh ps : forall en W T now en',
+  fresh en W T now -> all_pos ps = true -> add_dest_loop en now ps = Ok en' ->
+  fresh en' (W + wsum ps) (T + tsum ps) now.
+Proof.
+  induction ps as [|[e a] t IH]; simpl; intros en W T now en' F P H.
+  - inv_ok H. eapply fresh_ext; eauto; lia.
+  - unfold all_pos in P. simpl in P. apply andb_true_iff in P. destruct P as [Pa Pt]. apply Z.ltb_lt in Pa.
+    apply bind_ok in H. destruct H as (en1 & H1 & H).
+    assert (F1 : fresh en1 (W + a * e) (T + a) now).
+    { destruct (now <? e) eqn:E.
+      - apply Z.ltb_lt in E. inversion H1; subst en1. apply add_lock_fresh; auto; lia.
+      - apply bind_ok in H1. destruct H1 as (en0 & H0 & H1). inversion H1; subst en1.
+        eapply raw_remove_first_fresh; eauto; lia. }
+    eapply fresh_ext; [eapply IH; eauto | |]; lia.
+Qed.
+
+Definition ub_pay (ub : unbond) : Z * Z := (ub_e ub, ub_locked ub).
+
+Lemma cancel_loop_fresh q : forall en W T now en',
+  fresh en W T now -> Forall (fun ub => 0 < ub_locked ub) q -> cancel_loop en now q = Ok en' ->
+  fresh en' (W + wsum (map ub_pay q)) (T + tsum (map ub_pay q)) now.
+Proof.
+  induction q as [|ub t IH]; simpl; intros en W T now en' F P H.
+  - inv_ok H. eapply fresh_ext; eauto; lia.
+  - inversion P as [|? ? P1 P2]; subst. apply bind_ok in H. destruct H as (en1 & H1 & H).
+    assert (F1 : fresh en1 (W + ub_locked ub * ub_e ub) (T + ub_locked ub) now).
+    { destruct (now <=? ub_e ub) eqn:E; zb.
+      - inv_ok H1. apply add_lock_fresh; auto; lia.
+      - eapply raw_add_first_fresh; eauto. }
+    eapply fresh_ext; [eapply IH; eauto | |]; lia.
+Qed.
+
+(** ------------------------------------------------------------------ ledger *)
+(** [ldelta l l' h dw dt]: l' differs from l by dw in sum(amount*unlock) and dt in sum(amount) of holder h *)
+Definition ldelta (l l' : ledger) (h dw dt : Z) : Prop :=
+  forall v, lweight l' v = lweight l v + (if h =? v then dw else 0) /\
+            ltotal l' v = ltotal l v + (if h =? v then dt else 0).
+
+Lemma ldelta_credit l h e a : ldelta l (credit l h e a) h (a * e) a.
+Proof. intros v. simpl. destruct (h =? v); lia. Qed.
+
+Lemma ldelta_debit l h e a l' : debit l h e a = Ok l' -> ldelta l l' h (- (a * e)) (- a).
+Proof.
+  unfold debit. intros H. inv_ok H. intros v. simpl. destruct (h =? v); lia.
+Qed.
+
+Lemma ldelta_credit_all ps : forall l h, ldelta l (credit_all l h ps) h (wsum ps) (tsum ps).
+Proof.
+  induction ps as [|[e a] t IH]; simpl; intros l h v.
+  - destruct (h =? v); lia.
+  - destruct (IH (credit l h e a) h v) as [A B]. rewrite A, B. simpl. destruct (h =? v); lia.
+Qed.
+
+Lemma ldelta_debit_all ps : forall l h l', debit_all l h ps = Ok l' -> ldelta l l' h (- wsum ps) (- tsum ps).
+Proof.
+  induction ps as [|[e a] t IH]; simpl; intros l h l' H.
+  - inv_ok H. intros v. destruct (h =? v); lia.
+  - inv_ok H. apply ldelta_debit in Hb. specialize (IH _ _ _ H). intros v.
+    destruct (IH v) as [A B]. destruct (Hb v) as [C D]. rewrite A, B, C, D. destruct (h =? v); lia.
+Qed.
+
+Lemma lock_tokens_future l h e a now : now < e -> lock_tokens l h e a now = credit l h e a.
+Proof. unfold lock_tokens. intros H. destruct (e <=? now) eqn:E; zb; [lia | reflexivity]. Qed.
+
+(** ------------------------------------------------------------------ lock options, month rounding *)
+Lemma som_bounds x : som x <= x < som x + EPOCHS_PER_MONTH.
+Proof. unfold som. pose proof (Z.mod_pos_bound x _ month_pos). lia. Qed.
+
+Lemma forallb_last {A} (f : A -> bool) l d : l <> [] -> forallb f l = true -> f (last l d) = true.
+Proof.
+  induction l as [|a t IH]; intros Hne H; [congruence|].
+  simpl in H. apply andb_true_iff in H. destruct H as [Ha Ht].
+  destruct t as [|b t']; [exact Ha|]. change (last (a :: b :: t') d) with (last (b :: t') d).
+  apply IH; [discriminate | exact Ht].
+Qed.
+
+Lemma valid_opts_facts opts : valid_opts opts = true ->
+  opts <> [] /\ EPOCHS_PER_YEAR <= last_lock opts /\
+  (forall le, listed opts le = true -> EPOCHS_PER_YEAR <= le).
+Proof.
+  unfold valid_opts. intros H. zb.
+  assert (Hne : opts <> []) by (destruct opts; [discriminate | discriminate]).
+  split; [exact Hne|]. split.
+  - unfold last_lock. pose proof (forallb_last _ opts (0, 0) Hne H1) as L. simpl in L. zb. lia.
+  - intros le Hl. unfold listed in Hl. apply existsb_exists in Hl. destruct Hl as (o & Hin & Ho). zb.
+    rewrite forallb_forall in H1. specialize (H1 _ Hin). zb. lia.
+Qed.
+
+Lemma som_upper_future opts now x : EPOCHS_PER_MONTH <= last_lock opts -> now < x -> now < som_upper opts now x.
+Proof.
+  intros HL Hx. unfold som_upper. pose proof (som_bounds x) as B.
+  destruct (x =? som x) eqn:E1; zb; [lia|].
+  destruct (som x + EPOCHS_PER_MONTH <=? now) eqn:E2; zb; [lia|].
+  destruct (som x + EPOCHS_PER_MONTH - now <=? last_lock opts) eqn:E3; zb; lia.
+Qed.
+
+Lemma avg_up_future v1 w1 v2 w2 r now :
+  avg_up v1 w1 v2 w2 = Ok r -> now < v1 -> now < v2 -> 0 < w1 -> 0 < w2 -> now < r.
+Proof.
+  unfold avg_up. intros H H1 H2 P1 P2. apply div_chk_ok in H. destruct H as [Hne ->].
+  assert (now + 1 <= (v1 * w1 + v2 * w2 + (w1 + w2) - 1) / (w1 + w2)); [|lia].
+  apply Z.div_le_lower_bound; [lia | nia].
+Qed.
+
+Lemma merge_loop_spec ps : forall en now acc_e acc_a W T en' me ma,
+  fresh en W T now -> now < acc_e -> 0 < acc_a -> all_pos ps = true ->
+  merge_loop en now acc_e acc_a ps = Ok (en', me, ma) ->
+  fresh en' (W - wsum ps) (T - tsum ps) now /\ now < me /\ ma = acc_a + tsum ps /\ 0 < ma.
+Proof.
+  induction ps as [|[e a] t IH]; simpl; intros en now acc_e acc_a W T en' me ma F He Ha P H.
+  - inv_ok H. split; [eapply fresh_ext; eauto; lia | lia].
+  - zb. simpl in *. zb. inv_ok H. zb.
+    pose proof (avg_up_future _ _ _ _ _ now Hb0 He E Ha H0) as Hne.
+    assert (Hpos : 0 < acc_a + a) by lia.
+    destruct (IH _ _ _ _ _ _ _ _ _ (any_fresh _ _ _ _ _ _ _ F Hb) Hne Hpos H1 H) as (F' & M1 & M2 & M3).
+    split; [eapply fresh_ext; eauto; lia | lia].
+Qed.
+
+(** ------------------------------------------------------------------ the invariant *)
+Definition user_ok (s : st) (u : Z) : Prop :=
+  stored_ok (eget (s_en s) u) (lweight (s_bal s) u) (ltotal (s_bal s) u) (s_now s).
+
+Record EnergyInv (s : st) : Prop := {
+  inv_users : forall u, 0 < u -> user_ok s u;
+  inv_nonusers : forall h, h <= 0 -> eget (s_en s) h = zero_energy;     (* contract accounts have no entry *)
+  inv_opts : valid_opts (opts_of s) = true;
+  inv_unb : Forall (fun p => 0 < ub_locked (snd p)) (s_unb s);
+  inv_xf : Forall (fun x => all_pos (xf_funds x) = true) (s_xf s)
+}.
+
+Lemma entry_fresh s u : EnergyInv s -> 0 < u ->
+  fresh (entry_now s u) (lweight (s_bal s) u) (ltotal (s_bal s) u) (s_now s).
+Proof. intros I Hu. apply deplete_fresh. apply (inv_users _ I u Hu). Qed.
+
+Lemma eget_eset_same l u v : eget (eset l u v) u = v.
+Proof. unfold eset. simpl. rewrite Z.eqb_refl. reflexivity. Qed.
+
+Lemma eget_eset_other l u v w : u <> w -> eget (eset l u v) w = eget l w.
+Proof. unfold eset. simpl. intros H. destruct (u =? w) eqn:E; zb; [contradiction | reflexivity]. Qed.
+
+(** one user's entry is rewritten with a fresh value matching its new holdings; every other user
+    account's holdings are untouched *)
+Lemma inv_update s s' u en' :
+  EnergyInv s -> 0 < u ->
+  s_cfg s' = s_cfg s -> s_now s' = s_now s -> s_en s' = eset (s_en s) u en' ->
+  (forall v, 0 < v -> v <> u ->
+     lweight (s_bal s') v = lweight (s_bal s) v /\ ltotal (s_bal s') v = ltotal (s_bal s) v) ->
+  fresh en' (lweight (s_bal s') u) (ltotal (s_bal s') u) (s_now s) ->
+  Forall (fun p => 0 < ub_locked (snd p)) (s_unb s') ->
+  Forall (fun x => all_pos (xf_funds x) = true) (s_xf s') ->
+  EnergyInv s'.
+Proof.
+  intros I Hu Hc Hn He Hfr Hf Hub Hxf. constructor; auto.
+  - intros v Hv. unfold user_ok. rewrite He, Hn. destruct (Z.eq_dec u v) as [->|Hne].
+    + rewrite eget_eset_same. apply fresh_stored. exact Hf.
+    + rewrite eget_eset_other by assumption. destruct (Hfr v Hv ltac:(congruence)) as [A B].
+      rewrite A, B. apply (inv_users _ I v Hv).
+  - intros h Hh. rewrite He. rewrite eget_eset_other by lia. apply (inv_nonusers _ I h Hh).
+  - unfold opts_of. rewrite Hc. apply (inv_opts _ I).
+Qed.
+
+(** no entry is written; user holdings are untouched; time may advance *)
+Lemma inv_frame s s' :
+  EnergyInv s ->
+  s_cfg s' = s_cfg s -> s_now s <= s_now s' -> s_en s' = s_en s ->
+  (forall v, 0 < v ->
+     lweight (s_bal s') v = lweight (s_bal s) v /\ ltotal (s_bal s') v = ltotal (s_bal s) v) ->
+  Forall (fun p => 0 < ub_locked (snd p)) (s_unb s') ->
+  Forall (fun x => all_pos (xf_funds x) = true) (s_xf s') ->
+  EnergyInv s'.
+Proof.
+  intros I Hc Hn He Hfr Hub Hxf. constructor; auto.
+  - intros v Hv. unfold user_ok. rewrite He. destruct (Hfr v Hv) as [A B]. rewrite A, B.
+    destruct (inv_users _ I v Hv) as (P1 & P2 & P3 & P4). repeat split; auto. lia.
+  - intros h Hh. rewrite He. apply (inv_nonusers _ I h Hh).
+  - unfold opts_of. rewrite Hc. apply (inv_opts _ I).
+Qed.
